@@ -365,7 +365,7 @@ S5_PREFIXES = ('', 'fg_', 'bg_', 'ul_', 'dul_')
 def s5_items(tier):
     out = []
     for pre in S5_PREFIXES:
-        for form in ('rgb3', 'rgb3sp', 'rgb3br', 'rgb1', 'rgb1hex', 'c256', 'c256hex', 'colour256'):
+        for form in ('rgb3', 'rgb3sp', 'rgb3br', 'rgb3mix', 'rgb1', 'rgb1hex', 'c256', 'c256hex', 'colour256'):
             out.append([pre, form])
     for bad in ('rgb(', 'rgb()', 'rgb(1,2)', 'rgb(1,2,3', 'rgb(1,,3)', 'rgb(0x,1,2)', 'color256()', 'colr256(1)', 'rgb(1;2;3)',
                 'xg_rgb(1,2,3)', 'rgb(1,2,3,4)'):
@@ -410,7 +410,19 @@ def s5_task(envr, item):
 
         def chars(s):
             return [ord(ch) for ch in s]
-        if form.startswith('rgb3'):
+        if form == 'rgb3mix':
+            # each component independently decimal or 0x-hexadecimal
+            hexs = [bool(c.choice(2)) for _ in 'rgb']
+            ds = [_digits(c, x, 1 + c.choice(2), h) for x, h in zip('rgb', hexs)]
+            cps = chars(pre + 'rgb(')
+            for j in range(3):
+                cps = cps + (chars(',') if j else []) + (chars('0x') if hexs[j] else []) + ds[j]
+            cps = cps + chars(')')
+            vals = [_value(c, d, 16 if h else 10) for d, h in zip(ds, hexs)]
+            c.in_spec += 1
+            expected = I.call_name('rgb_expected', pre, *vals)
+            c.in_spec -= 1
+        elif form.startswith('rgb3'):
             ds = [_digits(c, x, 1 + c.choice(3)) for x in 'rgb']
             sp = chars(' ') if form == 'rgb3sp' else []
             ob, cb = (chars('['), chars(']')) if form == 'rgb3br' else ([], [])
@@ -460,7 +472,7 @@ def s2_items(tier):
     out += [['name', b] for b in BAD_NAMES]
     out += [['char', lo] for lo in (0, 1)]
     out += [['type', t] for t in ('none', 'float', 'dict', 'bytes', 'bool-in-dict', 'nested-none', 'set-obj-prop')]
-    out += [['self', w] for w in ('direct', 'indirect', 'deep', 'tuple-in-list')]
+    out += [['self', w] for w in ('direct', 'indirect', 'deep', 'tuple-in-list', 'twins', 'twins-named')]
     return out
 
 
@@ -527,6 +539,13 @@ def s2_task(envr, item):
                 a = sym.PList(['bold'])
                 arg = sym.PList([1, sym.PList([2, sym.PList([3, a])])])
                 a.items.append(arg)
+            elif what in ('twins', 'twins-named'):
+                # two lists of the same shape containing each other (equal by value all the way down)
+                a = sym.PList(['bold'] if what == 'twins-named' else [])
+                b = sym.PList(['bold'] if what == 'twins-named' else [])
+                a.items.append(b)
+                b.items.append(a)
+                arg = a
             else:
                 a = sym.PList(['red'])
                 a.items.append((a,))
@@ -546,8 +565,8 @@ GROUPS.append(Group('S2', 'negative integers (any position, any nesting, in a st
 # ------------------------------------------------------------------------------------------ S6: mixtures of forms
 CL_MIX = [Clause('list-is-concatenation-of-its-elements', 'post_scrub_concat'),
           Clause('make-unique-copies-setting-objects', 'post_scrub_unique_mix')]
-S6_KINDS = ('name', 'enum', 'int', 'setobj', 'rgbstr', 'c256str', 'intstr', 'verbatim', 'nested', 'empty', 'helper')
-S6_STRINGY = ('name', 'rgbstr', 'c256str', 'intstr', 'empty')
+S6_KINDS = ('name', 'enum', 'int', 'intpair', 'setobj', 'rgbstr', 'c256str', 'intstr', 'intpairstr', 'verbatim', 'nested', 'empty', 'helper')
+S6_STRINGY = ('name', 'rgbstr', 'c256str', 'intstr', 'intpairstr', 'empty')
 
 
 def s6_items(tier):
@@ -556,6 +575,14 @@ def s6_items(tier):
         for b in S6_KINDS:
             out.append([a, b])
     return out
+
+
+class _Splice(list):
+    """several elements contributed at the same nesting level"""
+
+
+def _elems(v):
+    return list(v) if isinstance(v, _Splice) else [v]
 
 
 def _s6_value(envr, c, kind, tag):
@@ -570,6 +597,13 @@ def _s6_value(envr, c, kind, tag):
         v = c.named_int('i' + tag, 0, 255)
         c.assume(b_and(i_cmp('!=', v, 38), i_cmp('!=', v, 48), i_cmp('!=', v, 58)))
         return v, []
+    if kind in ('intpair', 'intpairstr'):
+        vs = [c.named_int('p%d%s' % (j, tag), 0, 255) for j in range(2)]
+        for v in vs:
+            c.assume(b_and(i_cmp('!=', v, 38), i_cmp('!=', v, 48), i_cmp('!=', v, 58)))
+        if kind == 'intpair':
+            return _Splice(vs), []          # two integers at the same level as the other element
+        return sym.expand_istr(sym.mk_rope([('istr', vs[0]), ('lit', ';'), ('istr', vs[1])])), []
     if kind == 'setobj':
         o = I.instantiate('AnsiSetting', [['1', '38;5;7', 'zz'][c.choice(3)]], {})
         return o, [o]
@@ -602,17 +636,17 @@ def s6_task(envr, item):
         mu = bool(c.choice(2))
         a, oa = _s6_value(envr, c, ka, 'a')
         b, ob = _s6_value(envr, c, kb, 'b')
-        ea = I.call_name('texts', I.call_name('_AnsiSettingPoint._scrub_ansi_settings', a))
-        eb = I.call_name('texts', I.call_name('_AnsiSettingPoint._scrub_ansi_settings', b))
+        ea = I.call_name('texts', I.call_name('_AnsiSettingPoint._scrub_ansi_settings', sym.PList(_elems(a))))
+        eb = I.call_name('texts', I.call_name('_AnsiSettingPoint._scrub_ansi_settings', sym.PList(_elems(b))))
         expected = sym.PList(list(ea.items) + list(eb.items))
         forms = ['list', 'tuple']
         if ka in S6_STRINGY and kb in S6_STRINGY:
             forms.append('joined')
         form = forms[c.choice(len(forms))]
         if form == 'list':
-            arg = sym.PList([a, b])
+            arg = sym.PList(_elems(a) + _elems(b))
         elif form == 'tuple':
-            arg = (a, b)
+            arg = tuple(_elems(a) + _elems(b))
         else:
             arg = sym.s_concat(sym.s_concat(a, ';'), b)
         run_contract(envr, c, '_AnsiSettingPoint._scrub_ansi_settings', None, [arg, mu], {}, CL_MIX,
@@ -625,5 +659,5 @@ GROUPS.append(Group('S6', 'mixtures: a list / tuple of two elements of any two f
                     'string, integer string, verbatim, nested list, empty string, helper result) and the ";"-joined string of two '
                     'string forms yield the settings of the first followed by the settings of the second; make_unique copies',
                     ['C14'], 'B', ['_AnsiSettingPoint._scrub_ansi_settings', '_AnsiSettingPoint._scrub_ansi_format_string'],
-                    s6_items, s6_task, bounds='two elements; 11 forms each with 1-4 representatives, integers symbolic 0..255',
+                    s6_items, s6_task, bounds='two elements (one of them may be two integers in a row); 13 forms each with 1-4 representatives, integers symbolic 0..255',
                     assumes=['S3', 'S5', 'J1']))
